@@ -2,7 +2,6 @@ package checks
 
 import (
 	"encoding/base64"
-	"encoding/json"
 	"fmt"
 	"net/http"
 	"strings"
@@ -14,6 +13,7 @@ import (
 type c07mon struct {
 	stats *sim.Stats
 	level map[int]string // browser → "half" (uid established only by a remember cookie) | "full"
+	oauthRm map[int]bool // browser → did its most recent OAuth2 start ask to be remembered
 }
 
 func pidClass(pid string) string {
@@ -56,16 +56,15 @@ func rmPuts(rec *world.Rec) []string {
 	return out
 }
 
-func asked(s *sim.Sim, st *sim.Step) bool {
+func (m c07mon) asked(s *sim.Sim, st *sim.Step) bool {
 	a, rec := st.Act, st.Rec
 	switch flowOf(s, rec) {
 	case "login", "otp_login":
 		return a.Form["rm"] == "true"
 	case "oauth_cb":
-		var m map[string]string
-		if json.Unmarshal([]byte(rec.SessIn["oauth2_params"]), &m) == nil {
-			return m["rm"] == "true"
-		}
+		// what the user asked for is what the LATEST start request of this browser carried — not
+		// whatever parameters an earlier, abandoned start may have left in the session
+		return m.oauthRm[a.B]
 	}
 	return false
 }
@@ -76,6 +75,12 @@ func (m c07mon) Check(s *sim.Sim, st *sim.Step) []*sim.Violation {
 		return nil
 	}
 	var vs []*sim.Violation
+	if st.Act.Kind == "oauth_start" && rec.Location != "" {
+		m.oauthRm[st.Act.B] = st.Act.Opt["rm"] == "true"
+	}
+	if st.Act.Kind == "dropsid" {
+		delete(m.oauthRm, st.Act.B)
+	}
 	vs = append(vs, m.authLevel(s, st)...)
 	cin, uidIn := rec.CookiesIn["rm"], rec.SessIn["uid"]
 	puts := rmPuts(rec)
@@ -160,13 +165,13 @@ func (m c07mon) Check(s *sim.Sim, st *sim.Step) []*sim.Violation {
 	if rotated {
 		want++
 	}
-	if asked(s, st) {
+	if m.asked(s, st) {
 		want++
 	}
 	if len(puts) > want && rec.FaultsFired == 0 {
 		vs = append(vs, vio("C07", "cookie-issued-without-being-asked|"+flowOf(s, rec), "%d remember cookie value(s) issued by %s %s although the user did not ask to be remembered (rotation=%v)", len(puts), rec.Method, rec.Target, rotated))
 	}
-	if asked(s, st) && len(puts) > 0 {
+	if m.asked(s, st) && len(puts) > 0 {
 		m.stats.Count("issued-on-request:" + flowOf(s, rec))
 	}
 	// full logins clear the half-auth mark
@@ -373,7 +378,7 @@ func init() {
 				c.Stats.Inconclusive = append(c.Stats.Inconclusive, "world: "+err.Error())
 				return
 			}
-			sim.RunHistory(s, c07Profile, []sim.Monitor{c07mon{stats: c.Stats, level: map[int]string{}}}, c.Stats, unit)
+			sim.RunHistory(s, c07Profile, []sim.Monitor{c07mon{stats: c.Stats, level: map[int]string{}, oauthRm: map[int]bool{}}}, c.Stats, unit)
 		},
 		Floors: func(t string) map[string]int {
 			return map[string]int{"rotation:plain-pid": 30, "dead-cookie-presented:spent": 20, "dead-cookie-presented:unknown": 20, "dead-cookie-presented:revoked": 3,
